@@ -701,6 +701,15 @@ func genCase(t *rapid.T, mode string, forced *failOp) (p *casePayload, discard s
 		if variadic {
 			params = "v, t, ...w"
 		}
+		// an immediately invoked literal without parameters (v and t are then
+		// the enclosing function's, captured): literal, closure and call
+		// instruction all carry the position of the `func` keyword, and
+		// nothing compiled in between has another one
+		noArgs := inline[i] && i >= 2 && !variadic && g.chance("inline-no-args", 40)
+		if noArgs {
+			params = ""
+			g.feat["call:inline-no-args"] = true
+		}
 		lit := "func(" + params + ") {\n" + indent(g.join(body), "\t") + "\n}"
 		varg, targ := "v + 1", "t"
 		if i-1 == 0 {
@@ -720,6 +729,9 @@ func genCase(t *rapid.T, mode string, forced *failOp) (p *casePayload, discard s
 			args = varg + ", " + targ + ", 7, [8]"
 		default:
 			args = varg + ", " + targ
+		}
+		if noArgs {
+			args = ""
 		}
 		fn := fmt.Sprintf("f%d", i)
 		var call string
